@@ -111,6 +111,25 @@ impl MsgReceiver {
             final(w).handlers_at_ack == old(w).handlers_at_ack,
     { unimplemented!() }
 }
+impl MsgReceiver {
+    // non-waiting / bounded-wait variants: may come back empty although a message is on its way
+    #[verifier::external_body]
+    pub fn try_recv(&self, Tracked(w): Tracked<&mut W>) -> (r: Result<RouterMsg, RecvError>)
+        ensures
+            r is Ok ==> old(w).credit > 0 && final(w).credit == old(w).credit - 1, r is Err ==> final(w).credit == old(w).credit,
+            final(w).wakeup == old(w).wakeup, final(w).live == old(w).live, final(w).issued == old(w).issued,
+            final(w).calls == old(w).calls, final(w).delivered == old(w).delivered, final(w).acked == old(w).acked,
+            final(w).handlers_at_ack == old(w).handlers_at_ack,
+    { unimplemented!() }
+    #[verifier::external_body]
+    pub fn recv_timeout(&self, d: std::time::Duration, Tracked(w): Tracked<&mut W>) -> (r: Result<RouterMsg, RecvError>)
+        ensures
+            r is Ok ==> old(w).credit > 0 && final(w).credit == old(w).credit - 1, r is Err ==> final(w).credit == old(w).credit,
+            final(w).wakeup == old(w).wakeup, final(w).live == old(w).live, final(w).issued == old(w).issued,
+            final(w).calls == old(w).calls, final(w).delivered == old(w).delivered, final(w).acked == old(w).acked,
+            final(w).handlers_at_ack == old(w).handlers_at_ack,
+    { unimplemented!() }
+}
 impl AckSender {
     // crossbeam Sender<()>::send(()) of the shutdown acknowledgement
     #[verifier::external_body]
